@@ -23,10 +23,11 @@ PLAIN = [
     "india", "juliet", "kilo", "lima", "mike", "november", "oscar", "papa",
     "Quebec", "romeo", "Sierra", "tango",
 ]  # fmt: skip
-AREAS = ["work", "home", "gtd"]
-CONTEXTS = ["desk", "phone"]
-PEOPLE = ["ann", "bob"]
-PROJECTS = ["zorg", "garden"]
+# tag names include extensions of each other (identifier = ALPHANUM (ALPHANUM|_)*)
+AREAS = ["work", "home", "gtd", "work_log"]
+CONTEXTS = ["desk", "phone", "desk_2"]
+PEOPLE = ["ann", "bob", "ann_b"]
+PROJECTS = ["zorg", "garden", "zorg_cli"]
 PROP_KEYS = ["due", "k", "ID", "RID", "est"]
 PAGE_NAMES = ["inbox", "proj", "log", "ideas", "a", "ab", "todo"]
 SUBDIRS = ["sub", "sub/deep", "2024"]
@@ -119,12 +120,18 @@ class WorldGen:
             return r.choice(PLAIN)
         if x < 0.65 and self.has("tags"):
             k = r.randrange(4)
-            return [
+            tag = [
                 "#" + r.choice(AREAS),
                 "@" + r.choice(CONTEXTS),
                 "%" + r.choice(PEOPLE),
                 "+" + r.choice(PROJECTS),
             ][k]
+            y = r.random()
+            if y < 0.08:
+                return tag + r.choice([",", ".", ";", "!", "?", ":"])
+            if y < 0.12:
+                return "(" + tag + ")"
+            return tag
         if x < 0.73 and self.has("links"):
             k = r.randrange(6)
             pn = r.choice(self.page_names or PAGE_NAMES)
